@@ -21,6 +21,10 @@
     wflush <mkdir> <first _flush> <second _flush>   (each ok | exc spec)   → outcome
     loop  <in> <in> …                                      → <running|quit|died <display>> <consumed>
                                                                                in = exit | interrupt | code|<ok | exc spec>|<ok | exc spec>
+    loopreq <rq> <rq> …                                    → <running|quit|died <display>> <consumed>      (the generated quit test)
+                                                                               rq = interrupt | req|<lines>|<ok | exc spec>|<ok | exc spec>      lines = ~ (no line) | hex,hex,…
+    tty   <keyhex> …                                       → req <lines> <keys left> | waiting
+    keys  <k> <lines>|<result>|<render> *k <keyhex> …      → <status> <tty calls> | no-outcome     (k outcomes by request; a request without an entry: no-outcome)
     msg   <arg> <arg> …                                    → ok <hex> | raise <display>      arg = s:<hex> | o:<hex> | x:<reprhex>:<exc spec>
     quote <arg0> <exists 0|1> <pathhex> <bl> <bc> <el> <ec> <linehex> …   → ok <hex>|<hex>|… | raise <display>   (1-based lark source map)
 -/
@@ -126,6 +130,38 @@ def parseArg (s : String) : Option Arg :=
       | _, _ => none
     | _ => none
   else none
+
+/-- `~` = no line at all, else comma separated hex (`-` = the empty line) -/
+def parseReqLines (s : String) : Option (List Str) :=
+  if s == "~" then some [] else (s.splitOn ",").mapM Str.unhex
+
+def showReqLines (ls : List Str) : String :=
+  if ls.isEmpty then "~" else ",".intercalate (ls.map Str.hex)
+
+def parseRequest (s : String) : Option Request :=
+  if s == "interrupt" then some .interrupt
+  else match s.splitOn "|" with
+    | ["req", ls, r, rd] =>
+      match parseReqLines ls, parseResult r, parseResult rd with
+      | some l, some a, some b => some (.lines l a b)
+      | _, _, _ => none
+    | _ => none
+
+def parseOutcomeEntry (s : String) : Option (List Str × Except Exc Unit × Except Exc Unit) :=
+  match s.splitOn "|" with
+  | [ls, r, rd] =>
+    match parseReqLines ls, parseResult r, parseResult rd with
+    | some l, some a, some b => some (l, a, b)
+    | _, _, _ => none
+  | _ => none
+
+/-- the requests the model's `tty` splits a transcript into, up to the quit command (driver-side check of the outcome table) -/
+def requestsOf : Nat → List Str → List (List Str)
+  | 0, _ => []
+  | f + 1, keys =>
+    match tty keys with
+    | none => []
+    | some (req, rest) => if req == ttyQuitResult then [] else req :: requestsOf f rest
 
 def showStatus : Status → String
   | .running => "running"
@@ -251,6 +287,33 @@ def step (_ : Unit) : List String → Unit × String
   | "loop" :: ins =>
     match ins.mapM parseInput with
     | some is => let r := run is; ((), s!"{showStatus r.1} {r.2}")
+    | none => ((), "bad-op")
+  | "loopreq" :: rqs =>
+    match rqs.mapM parseRequest with
+    | some qs => let r := runRequests interactiveQuitTest qs; ((), s!"{showStatus r.1} {r.2}")
+    | none => ((), "bad-op")
+  | "tty" :: keys =>
+    match keys.mapM Str.unhex with
+    | some ks =>
+      match tty ks with
+      | some (req, rest) => ((), s!"req {showReqLines req} {rest.length}")
+      | none => ((), "waiting")
+    | none => ((), "bad-op")
+  | "keys" :: k :: rest =>
+    match k.toNat? with
+    | some n =>
+      match (rest.take n).mapM parseOutcomeEntry, (rest.drop n).mapM Str.unhex with
+      | some table, some ks =>
+        -- a request the table does not list is reported, never defaulted
+        let oc : List Str → Except Exc Unit × Except Exc Unit := fun req =>
+          match table.find? (fun e => e.1 == req) with
+          | some e => e.2
+          | none => (.ok (), .ok ())
+        if (requestsOf (ks.length + 1) ks).all (fun req => table.any (fun e => e.1 == req)) then
+          let r := runKeys interactiveQuitTest oc ks
+          ((), s!"{showStatus r.1} {r.2}")
+        else ((), "no-outcome")
+      | _, _ => ((), "bad-op")
     | none => ((), "bad-op")
   | "msg" :: args =>
     match args.mapM parseArg with
